@@ -155,11 +155,13 @@ CHECKS = {
             plain("regress", "^TestRegressC07"),
             rapid("context", "^TestC07Context$", 4000, 4),
             rapid("slogtree", "^TestC07Slog$", 3000, 2),
+            rapid("lazyfirstuse", "^TestC07LazyFirstUse$", 120, 2),
         ],
         "thorough": [
             plain("regress", "^TestRegressC07"),
             rapid("context", "^TestC07Context$", 80000, 16, timeout=3000),
             rapid("slogtree", "^TestC07Slog$", 40000, 8, timeout=3000),
+            rapid("lazyfirstuse", "^TestC07LazyFirstUse$", 3000, 8, timeout=3000),
         ],
     },
     "C08": {
@@ -279,10 +281,12 @@ CHECKS = {
         "quick": [
             plain("regress", "^(TestRegressC18|TestC18Levels)$"),
             rapid("slog", "^TestC18Slog$", 6000, 4),
+            rapid("firstuse", "^TestC18FirstUse$", 100, 1),
         ],
         "thorough": [
             plain("regress", "^(TestRegressC18|TestC18Levels)$"),
             rapid("slog", "^TestC18Slog$", 120000, 16, timeout=3000),
+            rapid("firstuse", "^TestC18FirstUse$", 3000, 4, timeout=3000),
         ],
     },
     "C17": {
